@@ -3,7 +3,7 @@ property, extra trusted-base entries, what is partial."""
 
 PROPS = {
     "C01": {
-        "suites": ["crash", "segment"],
+        "suites": ["crash", "segment", "faultmodel"],
         "partial": "the WAL-level crash statement is a theorem about the I/O-action model Model/Crash.lean (programs of StoreLogs with rotation and base reset, both truncations, Set and Open; process crash and power loss with any per-file choice of surviving un-fsynced batches and directory entries; any number of recoveries themselves cut by crashes), proved for every state satisfying the invariant QuiescentS, which is itself proved to hold initially, after every call and after every recovery; the model is tied to wal.go by the crash suite (per call: the real I/O event sequence = the model's program; per crash point and {process crash, nothing/everything un-fsynced surviving}: the log the real Open recovers = the model's; nested restarts; the invariant evaluated on every shadowed state). Granularity of the model is the batch: that a torn batch is recovered as absent or whole is the byte-level theorem (L1, batch_atomic_any_tear) — the two levels are linked by matching statements and by the chunk-granular crash suite, not by a mechanised composition. I/O errors are C10's; BoltDB's atomic durable commit and the OS fsync contract (C07) are assumed",
         "assumptions": ["disk model of DESIGN §5 (8-byte chunk granularity, fsync semantics, atomic meta commits)", "simfs mirrors the production fs package (probed at start-up; C07 checks the real layer)"],
     },
@@ -34,7 +34,7 @@ PROPS = {
         "assumptions": ["fsync(fd) makes earlier writes to the file durable; fsync(dirfd) makes earlier create/unlink/rename durable", "ptrace is permitted in the sandbox (the check reports itself unable to run otherwise)"],
     },
     "C08": {
-        "suites": ["wal", "crash", "conc", "fsdur"],
+        "suites": ["wal", "crash", "conc", "fsdur", "faultmodel"],
         "partial": "stable_refines / get-after-set / isolation are theorems of the sequential model; stable_any_crash (stable store before-or-after under every crash point, crash kind and recovery history; after once acknowledged) is a theorem of Model/Crash.lean; concurrency (callers owning different keys, forced interleaving) and aliasing of returned values are checked on the real BoltDB store by the conc suite; BoltDB's atomic durable commit is trusted",
         "assumptions": ["BoltDB: a write transaction is atomic and durable when Commit returns; Get after Put returns the value"],
     },
